@@ -13,3 +13,9 @@ func Emit(kind string, args ...int) {}
 
 // Gate is a no-op without the verif tag.
 func Gate(point string, id uintptr) {}
+
+// Install is a no-op without the verif tag.
+func Install(f func(kind string, args []int)) {}
+
+// InstallGate is a no-op without the verif tag.
+func InstallGate(f func(point string, id uintptr)) {}
